@@ -323,3 +323,232 @@ Proof.
 Qed.
 
 End Rep.
+
+(* ---- EC part distribution: safety for every schedule --------------------------------- *)
+From Coq Require Import Permutation.
+
+Definition own (s : pstate) : list nat :=
+  match ps_done s with
+  | Some i => [i]
+  | None => match ps_hold s with Some i => [i] | None => [] end
+  end.
+
+Definition owned (parts : list pstate) : list nat := flat_map own parts.
+
+Lemma own_done r h i d : own (mkPS r h (Some i) d) = [i].
+Proof. reflexivity. Qed.
+Lemma own_hold r i d : own (mkPS r (Some i) None d) = [i].
+Proof. reflexivity. Qed.
+Lemma own_none r d : own (mkPS r None None d) = [].
+Proof. reflexivity. Qed.
+
+Lemma owned_app l1 l2 : owned (l1 ++ l2) = owned l1 ++ owned l2.
+Proof. unfold owned. apply flat_map_app. Qed.
+
+Lemma update_split {A} (f : A -> A) : forall (l : list A) p s,
+  nth_error l p = Some s -> exists l1 l2, l = l1 ++ s :: l2 /\ update p f l = l1 ++ f s :: l2.
+Proof.
+  induction l as [|x r IH]; intros [|p] s H; simpl in H; try discriminate.
+  - inversion H; subst. exists [], r. auto.
+  - destruct (IH p s H) as (l1 & l2 & -> & E). exists (x :: l1), l2. simpl. rewrite E. auto.
+Qed.
+
+Section EC.
+Variable ack : node -> bool.
+Variable nodes : list node.
+Variable data : nat.
+
+Record ecinv (taken : list nat) (parts : list pstate) : Prop := mkInv {
+  i_nodup : NoDup (owned parts);
+  i_taken : incl (owned parts) taken;
+  i_ack : forall s, In s parts -> forall i, ps_done s = Some i -> ack (nth i nodes 0) = true;
+  i_bound : forall s, In s parts -> forall i, In i (ps_rest s) \/ In i (own s) -> i < length nodes
+}.
+
+Lemma ecinv_update taken taken' l1 s s' l2 :
+  ecinv taken (l1 ++ s :: l2) ->
+  incl taken taken' ->
+  NoDup (own s') ->
+  (forall i, In i (own s') -> In i (own s) \/ (~ In i taken /\ In i taken')) ->
+  (forall i, ps_done s' = Some i -> ack (nth i nodes 0) = true) ->
+  (forall i, In i (ps_rest s') \/ In i (own s') -> i < length nodes) ->
+  ecinv taken' (l1 ++ s' :: l2).
+Proof.
+  intros [N T A B] Hinc Hnd Hown Hack Hb.
+  rewrite owned_app in N, T. simpl in N, T. unfold owned in N, T. simpl in N, T.
+  fold (owned l1) in N, T. fold (owned l2) in N, T.
+  assert (Permutation (owned l1 ++ own s ++ owned l2) (own s ++ owned l1 ++ owned l2)) as P1
+      by apply Permutation_app_swap_app.
+  pose proof (Permutation_NoDup P1 N) as N1.
+  pose proof (nodup_app_r _ _ N1) as N2.
+  constructor.
+  - rewrite owned_app. simpl. unfold owned. simpl. fold (owned l1). fold (owned l2).
+    apply (Permutation_NoDup (Permutation_app_swap_app (own s') (owned l1) (owned l2))).
+    apply nodup_app_intro; auto.
+    intros i Hi Hx. destruct (Hown i Hi) as [Ho|[Hn _]].
+    + apply (nodup_app_disj _ _ i N1 Ho Hx).
+    + apply Hn. apply T. apply in_app_or in Hx. apply in_or_app.
+      destruct Hx; [left; auto|right; apply in_or_app; right; auto].
+  - rewrite owned_app. simpl. unfold owned. simpl. fold (owned l1). fold (owned l2).
+    intros i Hi. apply in_app_or in Hi. destruct Hi as [Hi|Hi].
+    + apply Hinc, T. apply in_or_app. auto.
+    + apply in_app_or in Hi. destruct Hi as [Hi|Hi].
+      * destruct (Hown i Hi) as [Ho|[_ Ht]]; auto.
+        apply Hinc, T. apply in_or_app. right. apply in_or_app. auto.
+      * apply Hinc, T. apply in_or_app. right. apply in_or_app. auto.
+  - intros x Hx i Hd. apply in_app_or in Hx. destruct Hx as [Hx|[<-|Hx]]; auto.
+    + apply (A x); auto. apply in_or_app. auto.
+    + apply (A x); auto. apply in_or_app. right. right. auto.
+  - intros x Hx i Hi. apply in_app_or in Hx. destruct Hx as [Hx|[<-|Hx]]; auto.
+    + apply (B x); auto. apply in_or_app. auto.
+    + apply (B x); auto. apply in_or_app. right. right. auto.
+Qed.
+
+Lemma ec_step_inv st p :
+  ecinv (ec_taken st) (ec_parts st) ->
+  ecinv (ec_taken (ec_step ack nodes data st p)) (ec_parts (ec_step ack nodes data st p)).
+Proof.
+  intros Hinv. unfold ec_step.
+  destruct (nth_error (ec_parts st) p) as [s|] eqn:En; [|exact Hinv].
+  destruct (ps_finished s) eqn:Ef; [exact Hinv|].
+  unfold ps_finished in Ef.
+  destruct (ps_done s) eqn:Ed; [discriminate|].
+  assert (In s (ec_parts st)) as Hs by (eapply nth_error_In; eauto).
+  assert (forall i, In i (ps_rest s) \/ In i (own s) -> i < length nodes) as Hb
+      by (intros i Hi; exact (i_bound _ _ Hinv s Hs i Hi)).
+  assert (forall f, exists l1 l2, ec_parts st = l1 ++ s :: l2 /\ update p f (ec_parts st) = l1 ++ f s :: l2) as Hsplit
+      by (intros f; eapply update_split; eauto).
+  destruct (ps_hold s) as [i|] eqn:Eh.
+  - assert (own s = [i]) as Hown by (unfold own; rewrite Ed, Eh; reflexivity).
+    assert (forall b l1 l2, ecinv (ec_taken st) (l1 ++ s :: l2) ->
+              ecinv (ec_taken st) (l1 ++ mkPS (ps_rest s) None None b :: l2)) as Hfail.
+    { intros b l1 l2 Hi. eapply ecinv_update; [exact Hi|apply incl_refl|..]; rewrite ?own_done, ?own_hold, ?own_none; simpl.
+      - constructor.
+      - intros j [].
+      - intros j Hj. discriminate.
+      - intros j [Hj|[]]. apply Hb. left. exact Hj. }
+    destruct (ack (nth i nodes 0)) eqn:Ea; [|destruct (ec_stop st)]; simpl.
+    + destruct (Hsplit (fun s => mkPS (ps_rest s) None (Some i) false)) as (l1 & l2 & E1 & ->).
+      rewrite E1 in Hinv. eapply ecinv_update; [exact Hinv|apply incl_refl|..]; rewrite ?own_done, ?own_hold, ?own_none; simpl.
+      * constructor; [intros []|constructor].
+      * intros j [<-|[]]. left. rewrite Hown. left. reflexivity.
+      * intros j Hj. inversion Hj; subst. exact Ea.
+      * intros j [Hj|[<-|[]]]; apply Hb; [left; exact Hj|right; rewrite Hown; left; reflexivity].
+    + destruct (Hsplit (fun s => mkPS (ps_rest s) None None true)) as (l1 & l2 & E1 & ->).
+      rewrite E1 in Hinv. apply Hfail. exact Hinv.
+    + destruct (Hsplit (fun s => mkPS (ps_rest s) None None (Nat.ltb (length nodes - S (ec_failed st)) data)))
+        as (l1 & l2 & E1 & ->).
+      rewrite E1 in Hinv. apply Hfail. exact Hinv.
+  - assert (own s = []) as Hown by (unfold own; rewrite Ed, Eh; reflexivity).
+    destruct (ps_rest s) as [|i r] eqn:Er; simpl.
+    + destruct (Hsplit (fun _ => mkPS [] None None true)) as (l1 & l2 & E1 & ->).
+      rewrite E1 in Hinv. eapply ecinv_update; [exact Hinv|apply incl_refl|..]; rewrite ?own_done, ?own_hold, ?own_none; simpl;
+        try constructor; try (intros j []); try (intros j Hj; discriminate); try (intros j [[]|[]]).
+    + destruct (ec_stop st || memb i (ec_taken st)) eqn:Ec; simpl.
+      * destruct (Hsplit (fun _ => mkPS r None None false)) as (l1 & l2 & E1 & ->).
+        rewrite E1 in Hinv. eapply ecinv_update; [exact Hinv|apply incl_refl|..]; rewrite ?own_done, ?own_hold, ?own_none; simpl;
+          try constructor; try (intros j []); try (intros j Hj; discriminate).
+        intros j [Hj|[]]. apply Hb. left. right. exact Hj.
+      * apply orb_false_iff in Ec. destruct Ec as [_ Ec].
+        assert (~ In i (ec_taken st)) as Hni.
+        { intro Hi. unfold memb in Ec. rewrite <- not_true_iff_false in Ec. apply Ec.
+          apply existsb_exists. exists i. split; auto. apply Nat.eqb_refl. }
+        destruct (Hsplit (fun _ => mkPS r (Some i) None false)) as (l1 & l2 & E1 & ->).
+        rewrite E1 in Hinv. eapply ecinv_update; [exact Hinv|..]; rewrite ?own_done, ?own_hold, ?own_none; simpl.
+        -- intros j Hj. right. exact Hj.
+        -- constructor; [intros []|constructor].
+        -- intros j [<-|[]]. right. split; [exact Hni|left; reflexivity].
+        -- intros j Hj. discriminate.
+        -- intros j [Hj|[<-|[]]]; apply Hb; left; [right; exact Hj|left; reflexivity].
+Qed.
+
+Lemma ec_run_inv sched : forall st,
+  ecinv (ec_taken st) (ec_parts st) ->
+  ecinv (ec_taken (ec_run ack nodes data sched st)) (ec_parts (ec_run ack nodes data sched st)).
+Proof.
+  unfold ec_run. induction sched as [|p r IH]; simpl; intros st H; auto.
+  apply IH. apply ec_step_inv. exact H.
+Qed.
+
+Lemma update_length {A} (f : A -> A) : forall l p, length (update p f l) = length l.
+Proof. induction l as [|x r IH]; intros [|p]; simpl; auto. Qed.
+
+Lemma ec_step_length st p : length (ec_parts (ec_step ack nodes data st p)) = length (ec_parts st).
+Proof.
+  unfold ec_step. destruct (nth_error (ec_parts st) p) as [s|]; auto.
+  destruct (ps_finished s); auto.
+  destruct (ps_hold s).
+  - destruct (ack _); [|destruct (ec_stop st)]; simpl; apply update_length.
+  - destruct (ps_rest s); simpl; [apply update_length|].
+    destruct (ec_stop st || memb n (ec_taken st)); simpl; apply update_length.
+Qed.
+
+Lemma ec_run_length sched : forall st,
+  length (ec_parts (ec_run ack nodes data sched st)) = length (ec_parts st).
+Proof.
+  unfold ec_run. induction sched as [|p r IH]; simpl; intros st; auto.
+  rewrite IH. apply ec_step_length.
+Qed.
+
+Lemma all_done_placement parts :
+  forallb (fun s => match ps_done s with Some _ => true | None => false end) parts = true ->
+  map ps_done parts = map Some (owned parts) /\ length (owned parts) = length parts.
+Proof.
+  induction parts as [|s r IH]; simpl; intros H; auto.
+  apply andb_true_iff in H. destruct H as [H1 H2]. destruct (IH H2) as [E1 E2].
+  unfold own. destruct (ps_done s); [|discriminate]. simpl. rewrite E1, E2. auto.
+Qed.
+
+Lemma owned_in parts i : In i (owned parts) -> exists s, In s parts /\ In i (own s).
+Proof. unfold owned. rewrite in_flat_map. auto. Qed.
+
+End EC.
+
+Lemma ec_init_inv ack nodes total : ecinv ack nodes [] (ec_parts (ec_init total (length nodes))).
+Proof.
+  unfold ec_init. simpl.
+  assert (forall l, owned (map (fun p => mkPS (part_seq p total (length nodes)) None None false) l) = []) as Ho.
+  { induction l; simpl; auto. }
+  constructor.
+  - rewrite Ho. constructor.
+  - rewrite Ho. intros i [].
+  - intros s Hs i Hd. apply in_map_iff in Hs. destruct Hs as (p & <- & _). discriminate.
+  - intros s Hs i Hi. apply in_map_iff in Hs. destruct Hs as (p & <- & _). simpl in Hi.
+    destruct Hi as [Hi|[]]. rewrite part_seq_eq in Hi. destruct total as [|t]; [destruct Hi|].
+    apply (node_seq_in p (S t) (length nodes) i); [lia|exact Hi].
+Qed.
+
+(* C25, EC: whatever the interleaving of the part goroutines, if all parts are
+   stored then they sit on pairwise distinct, acknowledging nodes of the list *)
+Theorem ec_safe ack nodes data total sched :
+  let st := ec_run ack nodes data sched (ec_init total (length nodes)) in
+  ec_all_done st = true ->
+  exists idxs, ec_placement st = map Some idxs /\ length idxs = total /\ NoDup idxs
+               /\ forall i, In i idxs -> i < length nodes /\ ack (nth i nodes 0) = true.
+Proof.
+  intros st Hd. subst st.
+  pose proof (ec_run_inv ack nodes data sched _ (ec_init_inv ack nodes total)) as Hinv.
+  set (st := ec_run ack nodes data sched (ec_init total (length nodes))) in *.
+  unfold ec_all_done in Hd. destruct (all_done_placement _ Hd) as [E1 E2].
+  exists (owned (ec_parts st)). split; [exact E1|]. split.
+  { rewrite E2. unfold st. rewrite ec_run_length. unfold ec_init. simpl. rewrite map_length, seq_length. reflexivity. }
+  split; [exact (i_nodup _ _ _ _ Hinv)|].
+  intros i Hi. destruct (owned_in _ _ Hi) as (s & Hs & Ho). split.
+  - apply (i_bound _ _ _ _ Hinv s Hs). right. exact Ho.
+  - apply (i_ack _ _ _ _ Hinv s Hs).
+    rewrite forallb_forall in Hd. specialize (Hd s Hs). unfold own in Ho.
+    destruct (ps_done s) as [j|]; [|discriminate]. destruct Ho as [<-|[]]. reflexivity.
+Qed.
+
+(* distinct indexes of a duplicate-free list are distinct nodes *)
+Lemma distinct_nodes (nodes : list node) idxs :
+  NoDup nodes -> NoDup idxs -> (forall i, In i idxs -> i < length nodes) ->
+  NoDup (map (fun i => nth i nodes 0) idxs).
+Proof.
+  intros Hn. induction 1 as [|i r Hi Hr IH]; simpl; intros Hb; [constructor|].
+  constructor; [|apply IH; intros; apply Hb; auto].
+  intros Hx. apply in_map_iff in Hx. destruct Hx as (j & Hj & Hjr).
+  assert (j = i).
+  { apply (proj1 (NoDup_nth nodes 0) Hn); auto. }
+  subst. tauto.
+Qed.
